@@ -352,10 +352,15 @@ class IntervalTier(textgrid_tier.TextgridTier):
                 if interval.end <= start:
                     newEntryList.append(interval)
                 elif interval.start >= end:
+                    # An entry that began exactly at /end/ now begins exactly
+                    # at /start/; floating point rounding must not move a
+                    # shifted entry to the left of /start/
+                    if interval.start == end:
+                        newStart = start
+                    else:
+                        newStart = max(interval.start - diff, start)
                     newEntryList.append(
-                        Interval(
-                            interval.start - diff, interval.end - diff, interval.label
-                        )
+                        Interval(newStart, interval.end - diff, interval.label)
                     )
 
             # Special case: an interval that spanned the deleted
